@@ -401,10 +401,16 @@ class Fn:
                     hits.append(((bid, i), dict(kd)))
                     stopped = True
                     break
+                if e["k"] == "decl" and e.get("n") in track and isinstance(e.get("init"), dict) and \
+                        e["init"].get("k") in ("bool", "int", "null"):
+                    kd[e["n"]] = bool(e["init"].get("v", 0))
                 if e["k"] == "assign":
                     lp = S(e.get("lhs"), al)
                     if lp in kd:
                         del kd[lp]
+                    r = e.get("rhs")
+                    if e.get("op") == "=" and lp in track and isinstance(r, dict) and r.get("k") in ("bool", "int", "null"):
+                        kd[lp] = bool(r.get("v", 0))
                     # prefix kill: assigning x kills x->y
                     for k in [k for k in kd if k.startswith(lp + "->") or k.startswith(lp + ".")]:
                         del kd[k]
